@@ -10,6 +10,7 @@
 
 #[path = "../../c07/src/core.rs"]
 mod core;
+mod miri;
 
 use crate::core::*;
 use simcommon::evidence::Evidence;
@@ -44,9 +45,27 @@ fn native_worker(args: &[String]) {
         let batch: u64 = arg(args, "--batch").and_then(|s| s.parse().ok()).unwrap_or(0);
         let size: u64 = arg(args, "--size").and_then(|s| s.parse().ok()).unwrap_or(100);
         let pool = Pool::load(&simcommon::repo_dir(), 6000);
-        let mut g = BatchGen { pool: &pool, memory: vec![], canaries: canaries(seed, &pool) };
+        let mut g = BatchGen { profile: episode_profile(batch), pool: &pool, memory: vec![], canaries: canaries(seed, &pool) };
         (0..size).map(|i| g.gen_run(seed, batch * size + i, 1)).collect()
     };
+    // odd episodes run on ONE long-lived OS thread (thread-local state accumulates
+    // over the whole history); even ones use a fresh OS thread per run (fresh
+    // SipHash keys per run)
+    let one_thread = arg(args, "--one-thread").is_some();
+    if one_thread {
+        let args2: Vec<String> = args.iter().filter(|a| *a != "--one-thread").cloned().collect();
+        let runs2 = runs.clone();
+        let h = std::thread::Builder::new().stack_size(64 << 20).spawn(move || native_episode(runs2, true)).expect("spawn");
+        let _ = args2;
+        if h.join().is_err() {
+            simcommon::harness_error("episode thread died");
+        }
+        return;
+    }
+    native_episode(runs, false);
+}
+
+fn native_episode(runs: Vec<RunDesc>, inline: bool) {
     let oracle = Arc::new(Mutex::new(Oracle::new()));
     let out = std::io::stdout();
     let mut reported = 0usize;
@@ -60,9 +79,7 @@ fn native_worker(args: &[String]) {
         let r2 = run.clone();
         let o2 = oracle.clone();
         // fresh OS thread => fresh SipHash keys drawn from the simulator's stream
-        let h = std::thread::Builder::new()
-            .stack_size(64 << 20)
-            .spawn(move || {
+        let body = move || {
                 set_hash_seed(r2.hash_seed);
                 let canary = hash_order_canary();
                 let mut pos = 0u32;
@@ -78,9 +95,13 @@ fn native_worker(args: &[String]) {
                     }
                 }
                 canary
-            })
-            .expect("spawn");
-        match h.join() {
+            };
+        let joined: std::thread::Result<u64> = if inline {
+            Ok(body())
+        } else {
+            std::thread::Builder::new().stack_size(64 << 20).spawn(body).expect("spawn").join()
+        };
+        match joined {
             Ok(c) => {
                 canaries_seen.insert(c);
             }
@@ -158,12 +179,56 @@ struct JobResult {
     wall: f64,
 }
 
-fn worker_cmd(leg: char) -> Command {
+/// Ambient conditions of a worker process, a function of the episode number:
+/// how many CPUs it may use (`available_parallelism`), a few environment
+/// variables, and (leg N) whether the whole history runs on one OS thread.
+fn ambient(batch: u64) -> (usize, usize, bool) {
+    let cpus = [0usize, 1, 0, 2, 0, 4, 0, 3, 0, 8][(batch % 10) as usize]; // 0 = all
+    let env_variant = (batch % 3) as usize;
+    let one_thread = batch % 2 == 1;
+    (cpus, env_variant, one_thread)
+}
+
+fn have_taskset() -> bool {
+    std::path::Path::new("/usr/bin/taskset").exists() || std::path::Path::new("/bin/taskset").exists()
+}
+
+fn worker_cmd_for(leg: char, batch: u64) -> Command {
     let t = target_dir();
-    let mut c = if leg == 'S' { Command::new(format!("{}/release/c07s", t)) } else { let mut c = Command::new(format!("{}/release/c07n", t)); c.arg("--worker"); c };
+    let (cpus, envv, one_thread) = ambient(batch);
+    let bin = if leg == 'S' { format!("{}/release/c07s", t) } else { format!("{}/release/c07n", t) };
+    let ncpu = std::thread::available_parallelism().map(|n| n.get()).unwrap_or(1);
+    let mut c = if cpus > 0 && cpus < ncpu && have_taskset() {
+        let start = ((batch as usize) * cpus) % (ncpu - cpus + 1);
+        let mut c = Command::new("taskset");
+        c.arg("-c").arg(format!("{}-{}", start, start + cpus - 1)).arg(bin);
+        c
+    } else {
+        Command::new(bin)
+    };
+    if leg != 'S' {
+        c.arg("--worker");
+        if one_thread {
+            c.arg("--one-thread").arg("1");
+        }
+    }
+    c.env_clear();
+    c.env("VERIF_REPO", simcommon::repo_dir());
     c.env("SHUTTLE_SILENCE_WARNINGS", "1");
+    c.env("PATH", "/usr/bin:/bin");
+    match envv {
+        0 => {}
+        1 => {
+            c.env("LANG", "de_DE.UTF-8").env("LC_ALL", "de_DE.UTF-8").env("TZ", "Asia/Tokyo").env("COLUMNS", "40").env("TERM", "dumb").env("NO_COLOR", "1");
+        }
+        _ => {
+            c.env("LANG", "C").env("TZ", "UTC").env("RUST_LOG", "trace").env("RUST_BACKTRACE", "1").env("HOME", "/nonexistent").env("USER", "nobody").env("COLUMNS", "200");
+        }
+    }
     c
 }
+
+
 
 fn run_child(mut cmd: Command, timeout: Duration) -> JobResult {
     let t0 = Instant::now();
@@ -223,20 +288,20 @@ fn run_child(mut cmd: Command, timeout: Duration) -> JobResult {
 }
 
 fn run_job(seed: u64, job: &Job) -> JobResult {
-    let mut c = worker_cmd(job.leg);
+    let mut c = worker_cmd_for(job.leg, job.batch);
     c.arg("--seed").arg(seed.to_string()).arg("--batch").arg(job.batch.to_string()).arg("--size").arg(job.size.to_string());
     run_child(c, Duration::from_secs(600))
 }
 
-fn run_episode_file(leg: char, file: &str, k: usize) -> JobResult {
-    let mut c = worker_cmd(leg);
+fn run_episode_file(leg: char, amb: u64, file: &str, k: usize) -> JobResult {
+    let mut c = worker_cmd_for(leg, amb);
     c.arg("--episode-file").arg(file).arg("--episode").arg(k.to_string());
     run_child(c, Duration::from_secs(600))
 }
 
 /// Regenerate the explicit description of batch `batch` of leg `leg`.
 fn regen_batch(seed: u64, leg: char, batch: u64, size: u64, pool: &Pool) -> Vec<RunDesc> {
-    let mut g = BatchGen { pool, memory: vec![], canaries: canaries(seed, pool) };
+    let mut g = BatchGen { profile: episode_profile(batch), pool, memory: vec![], canaries: canaries(seed, pool) };
     let mt = if leg == 'S' { 16 } else { 1 };
     (0..size).map(|i| g.gen_run(seed, batch * size + i, mt)).collect()
 }
@@ -244,6 +309,8 @@ fn regen_batch(seed: u64, leg: char, batch: u64, size: u64, pool: &Pool) -> Vec<
 #[derive(Clone)]
 struct Episode {
     leg: char,
+    /// episode number the ambient conditions (CPUs, environment, thread policy) derive from
+    amb: u64,
     runs: Vec<RunDesc>,
 }
 
@@ -253,7 +320,7 @@ fn replay_json(seed: u64, class: &str, detail: &str, episodes: &[Episode], extra
         "seed": seed.to_string(),
         "violation": {"class": class, "detail": detail},
         "info": extra,
-        "episodes": episodes.iter().map(|e| json!({"leg": e.leg.to_string(), "runs": e.runs.iter().map(|r| r.to_json()).collect::<Vec<_>>()})).collect::<Vec<_>>(),
+        "episodes": episodes.iter().map(|e| json!({"leg": e.leg.to_string(), "ambient": e.amb, "ambient_note": "episode number that selects CPU allowance / environment / thread policy, see ambient() in sim/c07n", "runs": e.runs.iter().map(|r| r.to_json()).collect::<Vec<_>>()})).collect::<Vec<_>>(),
     })
 }
 
@@ -269,7 +336,8 @@ fn execute_replay(path: &str) -> (Vec<String>, Vec<JobResult>) {
     let mut results = vec![];
     for (k, e) in eps.iter().enumerate() {
         let leg = e.get("leg").and_then(|l| l.as_str()).and_then(|s| s.chars().next()).unwrap_or('N');
-        let r = run_episode_file(if leg == 'F' { 'N' } else { leg }, path, k);
+        let amb = e.get("ambient").and_then(|a| a.as_u64()).unwrap_or(0);
+        let r = run_episode_file(if leg == 'F' { 'N' } else { leg }, amb, path, k);
         if !r.status_ok {
             found.push(format!("worker-died: {}", simcommon::preview(&r.stderr, 300)));
         }
@@ -311,8 +379,19 @@ fn write_replay_file(name: &str, v: &Value) -> String {
     path
 }
 
-/// Does this candidate still show a violation of the wanted class?
+// Does this candidate still show a violation of the wanted class?
+thread_local! {
+    /// wall-clock budget of the minimisation in progress
+    static SHRINK_DEADLINE: std::cell::Cell<Option<Instant>> = const { std::cell::Cell::new(None) };
+}
+
 fn still_fails(seed: u64, class: &str, eps: &[Episode], tries: &mut u32) -> bool {
+    if let Some(d) = SHRINK_DEADLINE.with(|c| c.get()) {
+        if Instant::now() > d {
+            *tries = u32::MAX / 2; // out of time: every loop of the minimiser stops
+            return false;
+        }
+    }
     *tries += 1;
     let v = replay_json(seed, class, "", eps, json!({}));
     let p = write_replay_file(&format!("tmp-shrink-{}", std::process::id()), &v);
@@ -338,7 +417,7 @@ fn minimise(seed: u64, class: &str, mut eps: Vec<Episode>, involved_runs: &[u64]
                 if keep_only_last && runs.len() > 1 {
                     runs = vec![runs.last().unwrap().clone()];
                 }
-                Episode { leg: e.leg, runs }
+                Episode { leg: e.leg, amb: e.amb, runs }
             })
             .collect();
         if cand.iter().all(|e| !e.runs.is_empty()) && cand.iter().map(|e| e.runs.len()).sum::<usize>() < eps.iter().map(|e| e.runs.len()).sum::<usize>() && still_fails(seed, class, &cand, &mut tries) {
@@ -644,6 +723,20 @@ fn check(tier: &str) -> i32 {
         simcommon::harness_error(&format!("{} worker process(es) died or timed out: {}", dead.len(), dead[0]));
     }
 
+    // ---- leg M (Miri): thorough tier, or VERIF_MIRI_SEEDS=<n>
+    let miri_n: usize = std::env::var("VERIF_MIRI_SEEDS").ok().and_then(|s| s.parse().ok()).unwrap_or(if tier == "thorough" { 16 } else { 0 });
+    let mut miri_out: Vec<miri::Outcome> = vec![];
+    let mut miri_note = "not run in this tier".to_string();
+    if miri_n > 0 {
+        if miri::available() {
+            eprintln!("[c07] leg M: {} Miri seeds in parallel (about ten minutes each)", miri_n);
+            miri_out = miri::run_many(seed, miri_n);
+            miri_note = format!("{} seeds", miri_out.len());
+        } else {
+            miri_note = "cargo +nightly miri is not available: leg M inconclusive".to_string();
+        }
+    }
+
     // ---- triage: confirm, minimise, replay; only then report
     let known = findings::load(PROPERTY);
     let mut violation_lines = vec![];
@@ -660,7 +753,7 @@ fn check(tier: &str) -> i32 {
         let entry = raw.line.get("entry").and_then(|x| x.as_str()).unwrap_or("-").to_string();
         let job = &jobs[raw.job];
         let dedupe = format!("{}|{}|{}", raw.class, job.leg, entry);
-        if !handled.insert(dedupe) || violation_lines.len() >= 6 {
+        if !handled.insert(dedupe) || violation_lines.len() >= 4 {
             continue;
         }
         let sig = json!({"class": raw.class, "leg": job.leg.to_string(), "entry": entry});
@@ -680,7 +773,7 @@ fn check(tier: &str) -> i32 {
                 let j = &jobs[jj];
                 let lg = if j.leg == 'F' { 'N' } else { j.leg };
                 let runs: Vec<RunDesc> = regen_batch(seed, lg, j.batch, j.size, &pool).into_iter().filter(|r| r.idx <= upto).collect();
-                episodes.push(Episode { leg: lg, runs });
+                episodes.push(Episode { leg: lg, amb: j.batch, runs });
                 involved.push(upto);
             }
         } else {
@@ -694,7 +787,7 @@ fn check(tier: &str) -> i32 {
                     *l = f; // carries the recorded schedule
                 }
             }
-            episodes.push(Episode { leg: leg_gen, runs });
+            episodes.push(Episode { leg: leg_gen, amb: job.batch, runs });
             involved.extend(first);
             involved.push(last_idx);
         }
@@ -704,7 +797,9 @@ fn check(tier: &str) -> i32 {
             eprintln!("[c07] {} in {}{} did not reproduce from its explicit description", raw.class, job.leg, job.batch);
             continue;
         }
+        SHRINK_DEADLINE.with(|c| c.set(Some(Instant::now() + Duration::from_secs(90))));
         let small = minimise(seed, &raw.class, episodes, &involved);
+        SHRINK_DEADLINE.with(|c| c.set(None));
         let v = replay_json(seed, &raw.class, &raw.detail, &small, json!({"origin_leg": job.leg.to_string(), "origin_batch": job.batch, "entry": entry}));
         let path = write_replay_file(&format!("{}-{}{}-{}", seed, job.leg, job.batch, raw.class), &v);
         let (found, _) = execute_replay(&path);
@@ -715,6 +810,26 @@ fn check(tier: &str) -> i32 {
         vio_samples.push(json!({"class": raw.class, "detail": raw.detail, "replay": path, "runs_in_replay": small.iter().map(|e| e.runs.len()).sum::<usize>()}));
         violation_lines.push(format!("VIOLATION property={} replay={}", PROPERTY, path));
         eprintln!("[c07] {}: {}", raw.class, raw.detail);
+    }
+
+    // leg M verdicts: a data race or an output mismatch under Miri is a violation
+    // once the same Miri seed reproduces it; anything else is inconclusive
+    for o in miri_out.iter().filter(|o| matches!(o.status, miri::Status::DataRace | miri::Status::Mismatch)) {
+        if violation_lines.len() >= 8 {
+            break;
+        }
+        let again = miri::run_one(o.seed, o.threads, o.variant, Duration::from_secs(3600));
+        if again.status != o.status {
+            unconfirmed += 1;
+            continue;
+        }
+        let class = if o.status == miri::Status::DataRace { "miri-data-race" } else { "miri-mismatch" };
+        let v = json!({"property": PROPERTY, "seed": seed.to_string(), "violation": {"class": class, "detail": o.tail},
+            "miri": {"miri_seed": o.seed, "threads": o.threads, "variant": o.variant, "flags": miri::FLAGS},
+            "how_to_replay": "./check C07 --replay <this file>  (runs sim/c07m under cargo +nightly miri with this seed)"});
+        let path = write_replay_file(&format!("{}-miri-{}", seed, o.seed), &v);
+        vio_samples.push(json!({"class": class, "replay": path}));
+        violation_lines.push(format!("VIOLATION property={} replay={}", PROPERTY, path));
     }
 
     // ---- evidence
@@ -733,7 +848,8 @@ fn check(tier: &str) -> i32 {
         rs.iter().map(|r| { let mut v = r.to_json(); if let Some(t) = v.get_mut("texts").and_then(|t| t.as_array_mut()) { for x in t.iter_mut() { *x = json!(simcommon::preview(x.as_str().unwrap_or(""), 120)); } } v }).collect()
     };
     ev.cov("samples", json!(sample_runs));
-    ev.cov("legs", json!({"S": {"episodes": b.s_batches, "runs": runs_s}, "N": {"episodes": b.n_batches, "runs": b.n_batches * b.n_size}, "F_fresh_process": {"episodes": b.fresh, "runs": b.fresh}, "M_miri": "see miri"}));
+    ev.cov("legs", json!({"S": {"episodes": b.s_batches, "runs": runs_s}, "N": {"episodes": b.n_batches, "runs": b.n_batches * b.n_size}, "F_fresh_process": {"episodes": b.fresh, "runs": b.fresh}, "M_miri": miri_note}));
+    ev.cov("miri", json!(miri_out.iter().map(|o| o.to_json()).collect::<Vec<_>>()));
     ev.cov("counters", json!(agg));
     ev.cov("processes", json!(jobs.len()));
     ev.cov("distinct_keys", json!(global.len()));
@@ -791,6 +907,20 @@ fn check(tier: &str) -> i32 {
 }
 
 fn replay(path: &str) -> i32 {
+    if let Ok(txt) = std::fs::read_to_string(path) {
+        if let Ok(v) = simcommon::serde_json::from_str::<Value>(&txt) {
+            if let Some(m) = v.get("miri") {
+                let o = miri::run_one(m["miri_seed"].as_u64().unwrap_or(0), m["threads"].as_u64().unwrap_or(2) as usize, m["variant"].as_u64().unwrap_or(0) as usize, Duration::from_secs(3600));
+                println!("{}", o.tail);
+                if matches!(o.status, miri::Status::DataRace | miri::Status::Mismatch) {
+                    println!("VIOLATION property={} replay={}", PROPERTY, path);
+                    return 1;
+                }
+                println!("REPLAY: no violation reproduced ({:?})", o.status);
+                return 0;
+            }
+        }
+    }
     let (found, results) = execute_replay(path);
     for r in &results {
         for l in &r.lines {
